@@ -19,10 +19,31 @@ var replayPkgRe = regexp.MustCompile(`(?m)^// replay-pkg: (\S+)`)
 
 // tryReplay returns (violated-on-real-code, output, command).
 func tryReplay(o *Options, id string, rec map[string]any) (bool, string, string) {
+	// one harness per property (replay_test.go), or several (replay_*_test.go), each for the
+	// package named on its '// replay-pkg:' line: the one for the failed function's package is used
 	tmpl := filepath.Join(verifDir, "replay", id, "replay_test.go")
+	fnPkg := ""
+	if f, ok := rec["function"].(string); ok {
+		if i := strings.LastIndex(f, "/"); i >= 0 {
+			if j := strings.Index(f[i:], "."); j >= 0 {
+				fnPkg = f[:i+j]
+			}
+		} else if j := strings.Index(f, "."); j >= 0 {
+			fnPkg = f[:j]
+		}
+	}
+	if cands, _ := filepath.Glob(filepath.Join(verifDir, "replay", id, "replay_*_test.go")); len(cands) > 0 {
+		for _, c := range cands {
+			if b, err := os.ReadFile(c); err == nil {
+				if m := replayPkgRe.FindSubmatch(b); m != nil && string(m[1]) == fnPkg {
+					tmpl = c
+				}
+			}
+		}
+	}
 	src, err := os.ReadFile(tmpl)
 	if err != nil {
-		return false, "no replay harness for this property", ""
+		return false, "no replay harness for this property (or none for package " + fnPkg + ")", ""
 	}
 	m := replayPkgRe.FindSubmatch(src)
 	if m == nil {
